@@ -235,6 +235,33 @@ def check_base(name, values, ctx):
                 ctx.violation('DEC2%s:places' % name, {
                     'case': case, 'observed': xl.show(w),
                     'accepted': [ref.zfill(10)]})
+        else:
+            # the ten digits of a negative number ignore the places
+            for p_ in (1 + abs(n) % 10, 10):
+                w = xl.canon(xl.scalar(d2x(n, p_)))
+                ctx.count('cmp.DEC2%s.negative-places' % name)
+                if w != xl.c_text(ref):
+                    ctx.violation('DEC2%s:negative-places' % name, {
+                        'case': case, 'places': p_, 'observed': xl.show(w),
+                        'accepted': [ref]})
+        # spellings outside the domain: a sign, a blank, python's base prefix or
+        # digit separator - never a numeral of that base
+        pre = {'BIN': '0b', 'OCT': '0o', 'HEX': '0x'}[name]
+        for why, bad in (('sign', '-' + ref[:9]), ('sign', '+' + ref[:9]),
+                         ('blank', ' ' + ref[:9]), ('blank', ref[:9] + ' '),
+                         ('prefix', pre + ref[:8]), ('prefix', pre.upper() + ref[:8]),
+                         ('separator', ref[:1] + '_' + ref[1:9]),
+                         ('digit', ref[:9] + 'G'), ('digit', ref[:9] + str(base)[-1:])):
+            if why == 'digit' and name == 'HEX' and bad[-1] != 'G':
+                continue
+            if why == 'separator' and len(ref) < 2:
+                continue
+            b4 = xl.canon(xl.scalar(x2d(bad)))
+            ctx.count('cmp.%s2DEC.outside-spelling' % name)
+            if b4 != xl.c_err('#NUM!'):
+                ctx.violation('%s2DEC:outside-spelling:%s' % (name, why), {
+                    'case': case, 'text': bad, 'observed': xl.show(b4),
+                    'accepted': ['#NUM!']})
         # cross conversions agree with going through decimal
         for other, (ob, obits) in _BASES.items():
             if other == name:
